@@ -30,7 +30,9 @@ PROPS = ["Bee2V/C06/Props.lean", "Bee2V/C06/PropsGen.lean", "Bee2V/C06/PropsGen2
          "Bee2V/C06/PropsNafLen.lean", "Bee2V/C06/PropsValid.lean", "Bee2V/C06/PropsPlace.lean",
          "Bee2V/C06/PropsPlace2.lean", "Bee2V/C06/PropsPlace3.lean", "Bee2V/C06/PropsPlace4.lean", "Bee2V/C06/PropsPlace5.lean",
          # gf2 arithmetic assumption discharged for GF(2^163/233/283) through the C05 result (C05.gf2Fld_sim)
-         "Bee2V/C06/PropsTop3.lean"]
+         "Bee2V/C06/PropsTop3.lean",
+         # round 3: ecpSWU, both branches explicit
+         "Bee2V/C06/PropsSWU2.lean"]
 TARGETS = [r[:-5].replace("/", ".") for r in PROPS]
 
 
@@ -854,7 +856,8 @@ def run(ctx):
             "field arithmetic of zm/gfp/qr (C05) is taken as exact arithmetic mod p",
             "binary curves (ec2.c): theorems hold over any field of characteristic 2; the driver's executable GF(2^m) arithmetic (Core2.gf2Fld = "
             "C05.gfMul / C05.ppInvModV) simulates the field GF(2)[x]/(md) for every irreducible md (C05.gf2Fld_sim); irreducibility is kernel-decided "
-            "for GF(2^163), GF(2^233), GF(2^283) (PropsTop3); for GF(2^409), GF(2^571) the same decision (5 resp. 13 CPU-min) is not part of the build",
+            "for GF(2^163), GF(2^233), GF(2^283) (PropsTop3: ecMulA_gf2_163/233/283; the general ecMulA_gf2 / ecOps2_sim_correct hold for every modulus with "
+            "C05.NatIrred md, i.e. accepted by the model of ppIsIrred); for GF(2^409), GF(2^571) that decision (5 resp. 13 CPU-min) is not part of the build",
             "programs of ecp.c / ec2.c, the create tables and ecNAFWidth are regenerated from the source by xlate/x_c06_ecp.py (clang AST) and "
             "identified with the model by rfl",
         ],
